@@ -54,7 +54,8 @@ fn usage_model(t: &[usize]) -> Model {
         let nt = if o / 2 == 0 { None } else { Some(uid("s2")) };
         m.walls.push(wall(
             &format!("w{i}"),
-            if nt.is_some() { BoundaryType::INTERIOR } else { BoundaryType::EXTERIOR },
+            // an adjacent space is a reference whatever the boundary kind of the wall that names it (party walls)
+            if nt.is_some() { if i == 0 { BoundaryType::INTERIOR } else { BoundaryType::ADIABATIC } } else { BoundaryType::EXTERIOR },
             wc,
             sp,
             nt,
@@ -399,7 +400,7 @@ pub fn run(ctx: &Ctx) -> i32 {
     }
     ctx.finish(
         "model_checking",
-        &format!("usage chain full product ({} models): 0..2 walls x (space{{s1,s2}} x next_to{{None,s2}}) x 2 spaces x (loads{{-,l1,l2}} x thermostat{{-,t1}}) + one never-referenced space x 2 loads x (people{{-,y1,y2}} x equipment{{-,y2}}) x thermostat temp_max{{-,y1,y2}} x yearly schedules x weeks subsets (incl. entries listed with 0 repetitions) x weekly x days subsets (idem); construction chain full product ({} models): 0..2 walls x cons{{c1,c2,absent}} x layers subsets x 0..2 windows x cons{{k1,k2,absent}} x (glass{{g1,g2,absent}} x frame{{f1,f2,absent}})^2 x bridge lengths{{0,-0,1e-9,0.005,1,-1}}; oracle: independent reachability => exact survivor list in original order per collection, idempotence (byte-identical JSON), no new checker warning, and (every 211th / 53rd model + 7 shipped models as shipped and with unused items inserted) a_ref, volumes, K, n50, q_soljul, compactness unchanged", n1, n2),
+        &format!("usage chain full product ({} models): 0..2 walls x (space{{s1,s2}} x next_to{{None,s2}}; the first wall with an adjacent space is INTERIOR, the second ADIABATIC) x 2 spaces x (loads{{-,l1,l2}} x thermostat{{-,t1}}) + one never-referenced space x 2 loads x (people{{-,y1,y2}} x equipment{{-,y2}}) x thermostat temp_max{{-,y1,y2}} x yearly schedules x weeks subsets (incl. entries listed with 0 repetitions) x weekly x days subsets (idem); construction chain full product ({} models): 0..2 walls x cons{{c1,c2,absent}} x layers subsets x 0..2 windows x cons{{k1,k2,absent}} x (glass{{g1,g2,absent}} x frame{{f1,f2,absent}})^2 x bridge lengths{{0,-0,1e-9,0.005,1,-1}}; oracle: independent reachability => exact survivor list in original order per collection, idempotence (byte-identical JSON), no new checker warning, and (every 211th / 53rd model + 7 shipped models as shipped and with unused items inserted) a_ref, volumes, K, n50, q_soljul, compactness unchanged", n1, n2),
         true,
         json!({"usage_space": n1, "cons_space": n2}),
     )
